@@ -221,6 +221,42 @@ def _calls_ir(fn):
     return [x[2] for x in sorted(out)]
 
 
+def _state_writes(fn):
+    """attribute / item writes through `self` (or setattr/__dict__ tricks) inside a method"""
+    out = []
+    for node in ast.walk(fn):
+        targets = []
+        if isinstance(node, ast.Assign):
+            targets = node.targets
+        elif isinstance(node, (ast.AugAssign, ast.AnnAssign)):
+            targets = [node.target]
+        elif isinstance(node, ast.Delete):
+            targets = node.targets
+        elif isinstance(node, ast.Call):
+            try:
+                nm = _dotted(node.func)
+            except TablesError:
+                nm = ""
+            if nm in ("setattr", "delattr", "object.__setattr__") or nm.endswith(".__setattr__") \
+                    or nm in ("self.__dict__.update", "self.__dict__.setdefault", "vars"):
+                out.append(nm)
+        elif isinstance(node, (ast.Global, ast.Nonlocal)):
+            out.append("global")
+        for t in targets:
+            for sub in ast.walk(t):
+                if isinstance(sub, ast.Attribute) and isinstance(sub.ctx, (ast.Store, ast.Del)) and _rooted_in_self(sub):
+                    out.append(ast.unparse(sub))
+                if isinstance(sub, ast.Subscript) and isinstance(sub.ctx, (ast.Store, ast.Del)) and _rooted_in_self(sub.value):
+                    out.append(ast.unparse(sub))
+    return out
+
+
+def _rooted_in_self(node):
+    while isinstance(node, (ast.Attribute, ast.Subscript)):
+        node = node.value
+    return isinstance(node, ast.Name) and node.id == "self"
+
+
 def _classes(path):
     tree = ast.parse(Path(path).read_text())
     out = {}
@@ -327,6 +363,15 @@ def read_colliders(repo):
     for cls, meths in cl.items():
         if "update_pose" in meths and cls not in EXPECTED_UPDATE and cls != "ConvexCollider":
             raise TablesError(f"colliders.py: unmodelled class with update_pose: {cls}")
+    # no hidden state: outside __init__ / update_pose / make_artist no collider method may write an
+    # attribute (a cache filled by a query would survive update_pose unnoticed by the model)
+    for cls, meths in cl.items():
+        for m, fn in meths.items():
+            if m in ("__bases__", "__init__", "update_pose", "make_artist"):
+                continue
+            w = _state_writes(fn)
+            if w:
+                raise TablesError(f"colliders.py: {cls}.{m} writes object state ({', '.join(w)}): not modelled")
     # compiled calls made from collider methods
     wrap = {}
     for cls, meths in cl.items():
@@ -346,6 +391,11 @@ def read_colliders(repo):
         raise TablesError("mesh.py: MeshHillClimbingSupportFunction.update_pose has an unexpected shape")
     if _calls_ir(f["__call__"]) != [MESH_CALL]:
         raise TablesError(f"mesh.py: __call__ makes compiled calls {_calls_ir(f['__call__'])}")
+    if _state_writes(f["__call__"]) != ["self.first_idx"]:
+        raise TablesError(f"mesh.py: __call__ writes {_state_writes(f['__call__'])}, expected the vertex cache only")
+    for m, fn in f.items():
+        if m not in ("__bases__", "__init__", "update_pose", "__call__") and _state_writes(fn):
+            raise TablesError(f"mesh.py: MeshHillClimbingSupportFunction.{m} writes object state")
     # containment.box_aabb (called by Box.aabb with self.box2origin, self.size)
     ct = ast.parse((Path(repo) / "distance3d" / "containment.py").read_text())
     ba = [n for n in ct.body if isinstance(n, ast.FunctionDef) and n.name == "box_aabb"]
